@@ -680,7 +680,7 @@ def _driver_rules(pid, tier, select, note):
     for s in scns:
         s["scn"] = s["scn"].replace("C12", pid)
     return e2e_check(pid, tier, scns, "C12Trace.tla", _corrupt_c12, note,
-                     par=8, threads=4, defer=True)
+                     par=8, threads=4, defer=True, mech=(pid == "C12"))
 
 
 def _names(s):
